@@ -49,6 +49,21 @@ func init() {
 	register("hash.sha256", func(req map[string]any) (any, error) {
 		return map[string]any{"hex": fmt.Sprintf("%x", sha256.Sum256([]byte(b2s(req["s"]))))}, nil
 	})
+	// hash.xxh3: grog's own xxh3 hasher (GetHasher under hash_algorithm=xxh3) fed the string in two pieces through
+	// Write and WriteString, printed by SumString.
+	register("hash.xxh3", func(req map[string]any) (any, error) {
+		config.Global.HashAlgorithm = config.HashAlgorithmXXH3
+		s := b2s(req["s"])
+		h := hashing.GetHasher()
+		cut := len(s) / 3
+		if _, err := h.Write([]byte(s[:cut])); err != nil {
+			return nil, err
+		}
+		if _, err := h.WriteString(s[cut:]); err != nil {
+			return nil, err
+		}
+		return map[string]any{"hex": h.SumString()}, nil
+	})
 	// hash.key: the real GetTargetChangeHash on a target assembled from the request, with the input files
 	// materialised in a fresh workspace directory.
 	register("hash.key", func(req map[string]any) (any, error) {
